@@ -124,6 +124,7 @@ type Sim struct {
 	pairs    map[[2]int32]int
 	faults   map[string]int
 	pools    map[*sync.Pool]*simPool
+	wpending map[*sync.RWMutex]int // writers parked in Lock: new readers queue behind them (Go's RWMutex semantics)
 	fair     bool
 	overrun  bool
 	last     *Thread
@@ -175,7 +176,7 @@ func Run(t *testing.T, cfg Config, tape *Tape, main func(s *Sim)) (res *Result) 
 		cfg.MaxYields = 30000000
 	}
 	s := &Sim{cfg: cfg, tape: tape, pairs: map[[2]int32]int{},
-		faults: map[string]int{}, pools: map[*sync.Pool]*simPool{}, hash: 1469598103934665603, sig: 1469598103934665603,
+		faults: map[string]int{}, pools: map[*sync.Pool]*simPool{}, wpending: map[*sync.RWMutex]int{}, hash: 1469598103934665603, sig: 1469598103934665603,
 		Values: map[string]interface{}{}}
 	res = &Result{}
 	defer func() {
@@ -677,8 +678,31 @@ func L(site int32, mu interface{}, write bool) {
 	}
 	s.yield(site)
 	th := s.running
-	for !tryLock(mu, write) {
-		th.ready = func() bool { return tryLock(mu, write) }
+	ok := func() bool { return tryLock(mu, write) }
+	if rw, isRW := mu.(*sync.RWMutex); isRW {
+		if write {
+			if tryLock(mu, true) {
+				return
+			}
+			// sync.RWMutex: once a writer waits, readers that arrive later wait behind it (this is what
+			// makes a recursive RLock deadlock when a writer slips in between)
+			// (no defer: at teardown all parked threads Goexit at once and must not touch the map)
+			s.wpending[rw]++
+			for !tryLock(mu, true) {
+				th.ready = ok
+				th.lockWait = true
+				th.opSite = site
+				s.park(th)
+				th.ready = nil
+			}
+			s.wpending[rw]--
+			return
+		} else {
+			ok = func() bool { return s.wpending[rw] == 0 && tryLock(mu, false) }
+		}
+	}
+	for !ok() {
+		th.ready = ok
 		th.lockWait = true
 		th.opSite = site
 		s.park(th)
